@@ -232,7 +232,9 @@ func (f *c18CmFix) digest() string {
 	return fmt.Sprintf("o%d/w%d/d%s/n%d/b%d", open, len(f.getWait), strings.Join(ws, ","), f.dialCalls, f.bans)
 }
 
-const c18CmBound = 3 * time.Second
+// bound for an owed reaction; replays / shrinking (--only) use a shorter one: a single small case on an
+// otherwise idle harness reacts within microseconds, and a broken tree would otherwise cost seconds per step
+var c18CmBound = 3 * time.Second
 
 func c18RunCm(head []string, evs []string) (obs string) {
 	target := c18Head(head, "t", 0)
